@@ -152,9 +152,22 @@ def run(ctx):
             ctx.shape("R15-knots", "%s:right-knot" % q.key, sites["right"][1].span, "right tail starts at %s, not at the last centroid" % fmt(z))
             del sites["right"]
     ctx.floor("R15-knots:quantile", len(sites), 3, "interpolation sites in quantile (left tail, interior, right tail)")
+    # every value quantile returns is one of the interpolations (or NaN for the empty digest): a shortcut that returns a knot, a
+    # centroid mean or an extremum directly flattens a whole segment of the quantile function
+    def _alts(t_):
+        if t_[0] == "phi":
+            for x_ in t_[1]:
+                for y_ in _alts(x_):
+                    yield y_
+        else:
+            yield t_
+    rq = tb.return_term()
+    stray = [a_ for a_ in _alts(rq) if not ((a_[0] == "call" and a_[1].endswith("interpolate")) or (a_[0] == "const" and a_[1] != a_[1]) or a_ == const(float("nan")) or fmt(a_) == "nan")]
+    ctx.check(not stray, "R15-knots", q.key + ":returns", q, "quantile returns only interpolated values (or NaN when empty)",
+              "quantile returns %s without interpolating (%d such value(s)): every q of that segment is mapped to one point" % (fmt(stray[0])[:120] if stray else "", len(stray)))
     cumv = None
     for kind, (bi, t, a) in sorted(sites.items()):
-        tt = a[2]
+        tt = guarded_quotient(a[2])
         if not (tt[0] == "op" and tt[1] == "Div" and len(tt[2]) == 2):
             ctx.shape("R15-knots", "%s:%s" % (q.key, kind), t.span, "interpolation parameter %s is not a quotient" % fmt(tt))
             continue
@@ -277,6 +290,7 @@ def run(ctx):
         else:
             why.append("lower knot rank %s is not the loop-carried last_cum" % fmt(lc))
         # t = (x - last_mean) / (upper_mean - last_mean)
+        tt = guarded_quotient(tt)
         if tt[0] == "op" and tt[1] == "Div":
             num, den = tt[2]
             lm = [s for s in subterms(num) if s[0] == "loopvar"]
@@ -399,3 +413,20 @@ def read_rules(ctx):
         site = [bi for bi, t in f.calls() if t.callee_name() == "borrow_mut" or t.callee() in mergers]
         okv = bool(site) and all(want(atomic_facts(f, prog, bi, tbf), None) for bi in site)
         ctx.check(okv, "R15-validation", f.key, f, "argument assert dominates the first borrow", "%s does not validate its argument before touching the digest" % name)
+
+
+def guarded_quotient(tt):
+    """`if den > 0 { num / den } else { c }` is the quotient num / den: the other arm is taken only where the segment is empty
+    (den <= 0 cannot hold between two knots a <= x < b); anything else is returned unchanged"""
+    from ..terms import PHI_GUARD
+    if tt and tt[0] == "phi":
+        g = PHI_GUARD.get(repr(tt))
+        if g is not None:
+            cond, yes, no = g
+            for q_, other_, want in ((yes, no, True), (no, yes, False)):
+                if q_[0] == "op" and q_[1] == "Div" and len(q_[2]) == 2 and other_[0] == "const":
+                    den = q_[2][1]
+                    pos = cond in (mk("Lt", const(0.0), den), mk("Lt", const(0), den)) if want else cond in (mk("Le", den, const(0.0)), mk("Le", den, const(0)))
+                    if pos:
+                        return q_
+    return tt
